@@ -122,3 +122,8 @@ for _pid in ("C07", "C08", "C09", "C12", "C13", "C16"):
 for _pid, _p in PROPERTIES.items():
     if _pid not in ("C19", "C20") and coalitions.rule_k3_operators not in _p["rules"]:
         _p["rules"].insert(-1, coalitions.rule_k3_operators)
+
+# what "a valid action" is (Y2: the mask marks exactly the still-unknown explorable coalitions) belongs to every property that speaks of valid actions
+for _pid in ("C12", "C13"):
+    if gym.rule_c09_spaces not in PROPERTIES[_pid]["rules"]:
+        PROPERTIES[_pid]["rules"].insert(-1, gym.rule_c09_spaces)
